@@ -31,12 +31,14 @@
 
 #include "buffered_reader.h"
 #include "http_server.h"
+#include "list.h"
 
 #ifdef __cplusplus
 extern "C" {
 #endif
 
 struct http_connection {
+	struct list_head next_connection;
 	struct buffered_reader br;
 	http_parser parser;
 	http_parser_settings parser_settings;
@@ -53,6 +55,7 @@ int init_http_connection(struct http_connection *connection, const struct http_s
 int init_http_connection2(struct http_connection *connection, const struct http_server *server, struct buffered_reader *reader, bool is_local_connection,
                           unsigned int compression_level);
 void free_connection(void *context);
+void free_all_http_connections(void);
 int send_http_error_response(struct http_connection *connection);
 
 #define HTTP_OK 200
